@@ -174,10 +174,13 @@ Here we assume that all parts have numeric arguments, except for
         while position < len(spec):
             try:
                 float(spec[position])
-                res.append(spec[position])
-                position += 1
             except ValueError:
                 break
+            except OverflowError:
+                # an integer too large for a float is a number nevertheless
+                pass
+            res.append(spec[position])
+            position += 1
         return res
 
     def consumesaveinfo():
